@@ -626,7 +626,7 @@ type ContractFile struct {
 var reFuncHdr = regexp.MustCompile(`^(func|iface|extern)\s+(\S+)(.*)$`)
 var reLoop = regexp.MustCompile(`^loop\s+(\d+)\s*:\s*(invariant|decreases|exhaustive)\b\s*(.*)$`)
 var reCalls = regexp.MustCompile(`^calls\s+(\S+?)#(\d+|\*)\s*:\s*(requires|ensures|set|pure)\b\s*(.*)$`)
-var reAt = regexp.MustCompile(`^at\s+(assign\s+(\.?\w+)#(\d+)|loop\s+(\d+)\s+(?:back|exit)|send#(\d+)|select#(\d+))\s*:\s*(assert|set)\s+(.*)$`)
+var reAt = regexp.MustCompile(`^at\s+(assign\s+(\.?\w+)#(\d+)|loop\s+(\d+)\s+(?:back|exit)|send#(\d+|\*)|select#(\d+))\s*:\s*(assert|set)\s+(.*)$`)
 var reSpecFunc = regexp.MustCompile(`^spec\s+(?:func|macro)\s+(\w+)\s*\(([^)]*)\)\s*([\w.\[\]*$]+)\s*(?:=\s*(.*))?$`)
 var reGhost = regexp.MustCompile(`^ghost\s+(\w+)\s+([\w.\[\]*$]+)\s*=\s*(.*)$`)
 var reSet = regexp.MustCompile(`^(\w+)\s*=\s*(.*)$`)
@@ -816,7 +816,11 @@ func ParseContractFile(path string) (*ContractFile, error) {
 				aa.Ord, _ = strconv.Atoi(m[6])
 			default:
 				aa.Anchor = "send"
-				aa.Ord, _ = strconv.Atoi(m[5])
+				if m[5] == "*" {
+					aa.Ord = -1 // every send of the function
+				} else {
+					aa.Ord, _ = strconv.Atoi(m[5])
+				}
 			}
 			if m[7] == "set" {
 				sm := reSet.FindStringSubmatch(m[8])
